@@ -193,6 +193,20 @@ func (r *rig) reload(subs []subSpec) error {
 	return nil
 }
 
+// reloadClusterConf mirrors BfeServer.serverDataConfReload for cluster_conf.data:
+// a new ClusterTable is loaded and handed to SetGslbBasic / SetSlowStart.
+func (r *rig) reloadClusterConf(gb gbSpec) error {
+	ccf := writeConf("cluster_conf.data", clusterConfJSON(gb))
+	ct := new(bfe_route.ClusterTable)
+	if err := ct.Init(ccf); err != nil {
+		return err
+	}
+	r.ct = ct
+	r.bt.SetGslbBasic(r.ct)
+	r.bt.SetSlowStart(r.ct)
+	return nil
+}
+
 // handles returns sub-cluster name -> "addr:port" -> backend handles.
 func (r *rig) handles() map[string]map[string][]*backend.BfeBackend {
 	out := map[string]map[string][]*backend.BfeBackend{}
